@@ -4,6 +4,7 @@ import (
 	"fmt"
 	"reflect"
 	"sort"
+	"strings"
 	"time"
 
 	"github.com/mfcochauxlaberge/jsonapi"
@@ -343,7 +344,8 @@ func genVal(r *Rng, kind int, nullable bool) any {
 // ---------- types and resources ----------
 
 var fieldNames = []string{"a", "b", "c", "ab", "a_b", "name", "x", "y", "many", "manys", "one", "n1", "n2", "n3", "n4", "n5",
-	"type", "links", "meta", "data", "attributes", "relationships", "self", "related", "ID", "Id"} // the last ten: names of JSON:API members, legal as field names
+	"type", "links", "meta", "data", "attributes", "relationships", "self", "related", "ID", "Id", // these ten: names of JSON:API members, legal as field names
+	"n,omitempty", "opt,string"} // a json tag is taken whole as the field's name, options included
 var idPool = []string{"1", "2", "3", "10", "a", "b", "abc", "id", "x y", "é", "", "0", "9", "z", "a/b", "..", "a%2Fb", "1e3", "null", "01"}
 
 type genTypeOpts struct {
@@ -385,6 +387,9 @@ func genTyp(r *Rng, o genTypeOpts) jsonapi.Type {
 			rel.ToName = fieldNames[r.IntN(len(fieldNames))]
 			if an := sortedKeys(t.Attrs); len(an) > 0 && r.bool() {
 				rel.ToName = an[r.IntN(len(an))]
+			}
+			if strings.Contains(rel.ToName, ",") {
+				rel.ToName = "inv" // an api tag cannot spell an inverse name with a comma
 			}
 		}
 		if t.Rels == nil {
@@ -464,9 +469,21 @@ func structTypeFor(typ jsonapi.Type) reflect.Type {
 		fields = []reflect.StructField{{Name: "Base", Type: reflect.StructOf([]reflect.StructField{idField}), Anonymous: true}}
 	}
 	n := 0
+	// decoy: a field of the same Go type carrying the same json tag but no api tag, declared
+	// just before the real one (plain data of the user's struct, e.g. kept for another
+	// encoder): it is no field of the resource and nothing may read or write it
+	decoy := func(name string, ft reflect.Type) {
+		if (len(name)+n)%4 == 2 {
+			fields = append(fields, reflect.StructField{
+				Name: fmt.Sprintf("D%d", n), Type: ft,
+				Tag: reflect.StructTag(fmt.Sprintf(`json:"%s"`, name)),
+			})
+		}
+	}
 	for _, k := range sortedKeys(typ.Attrs) {
 		a := typ.Attrs[k]
 		n++
+		decoy(a.Name, goTypeOf(a.Type, a.Nullable))
 		fields = append(fields, reflect.StructField{
 			Name: fmt.Sprintf("F%d", n), Type: goTypeOf(a.Type, a.Nullable),
 			Tag: reflect.StructTag(fmt.Sprintf(`json:"%s" api:"attr"`, a.Name)),
@@ -483,6 +500,7 @@ func structTypeFor(typ jsonapi.Type) reflect.Type {
 		if rel.ToName != "" {
 			tag += "," + rel.ToName
 		}
+		decoy(rel.FromName, ft)
 		fields = append(fields, reflect.StructField{
 			Name: fmt.Sprintf("F%d", n), Type: ft,
 			Tag: reflect.StructTag(fmt.Sprintf(`json:"%s" api:"%s"`, rel.FromName, tag)),
@@ -569,6 +587,18 @@ func newWrappedLiteral(typ jsonapi.Type, id string, vals map[string]any) *jsonap
 		k := sv.Type().Field(i).Tag.Get("json")
 		v, ok := vals[k]
 		if !ok || sv.Type().Field(i).Anonymous || sv.Type().Field(i).Name == "ID" {
+			continue
+		}
+		if sv.Type().Field(i).Tag.Get("api") == "" {
+			// a decoy holds data of its own
+			switch sv.Field(i).Interface().(type) {
+			case string:
+				sv.Field(i).SetString("decoy")
+			case []string:
+				sv.Field(i).Set(reflect.ValueOf([]string{"decoy"}))
+			case []byte:
+				sv.Field(i).Set(reflect.ValueOf([]byte("decoy")))
+			}
 			continue
 		}
 		rv := reflect.ValueOf(cloneVal(v))
